@@ -312,7 +312,18 @@ def run_case(rng, ctx):
         xr = x[::-1]
         X, Xr = case.dim(x), case.dim(xr)
         px = ke.prod(x)
-        cups, caps = Tensor.cups(X, Xr), Tensor.caps(Xr, X)
+        # the adjoints the library computes are the reversed dimensions the
+        # harness computes (both snakes below are formed on the library's own)
+        got_l, got_r = X.l, X.r
+        ctx.expect("snake-equations",
+                   ke.dims_of(got_l) == ke.dims_of(Xr) == ke.dims_of(got_r)
+                   and got_l == Xr and got_r == Xr and got_l.r == X
+                   and got_r.l == X, law="X.l and X.r are X reversed; X.l.r == X == X.r.l",
+                   X=list(x), X_l=lambda: repr(got_l), X_r=lambda: repr(got_r))
+        ctx.count("adjoint_dims_compared")
+        if len(set(strip(x))) > 1 and strip(x) != strip(xr):
+            ctx.count("adjoint_dims_compared_non_palindromic")
+        cups, caps = Tensor.cups(X, got_r), Tensor.caps(got_r, X)
         cm = cups_matrix(strip(x))
         case.judge("cups-caps-defining-tensor", cups, cm, x + xr, (),
                    law="cups(X, X.r)", X=list(x))
@@ -328,7 +339,7 @@ def run_case(rng, ctx):
         right_snake = idx @ caps >> cups @ idx
         case.judge("snake-equations", right_snake, numpy.eye(px), x, x,
                    law="id @ caps(X.r, X) >> cups(X, X.r) @ id", X=list(x))
-        left_snake = Tensor.caps(X, Xr) @ idx >> idx @ Tensor.cups(Xr, X)
+        left_snake = Tensor.caps(X, got_l) @ idx >> idx @ Tensor.cups(got_l, X)
         case.judge("snake-equations", left_snake, numpy.eye(px), x, x,
                    law="caps(X, X.l) @ id >> id @ cups(X.l, X)", X=list(x))
     case.exact = exact
